@@ -34,10 +34,10 @@ import (
 
 func init() {
 	kit.Register(&kit.Spec{
-		ID: "C37",
-		Rule: "S: key sets of 1..8 fresh P-256 keys; standard, every (m,n) with 2<=n<=8, Schnorr aggregates of 1..8 keys; random TransferAsset transactions (v0/v9, 1..4 inputs, 1..4 outputs, attributes, lock time); each signed through one wallet path with the signer order permuted; then one byte of the unsigned bytes changed at every position (<=400) for standard and Schnorr witnesses and at a seeded sample of max(24, 800/(m*n)) positions incl. first and last for m-of-n witnesses. C: every issued address prefix x random 20-byte hashes, mutated address strings (one character replaced / transposed / dropped / inserted / non-alphabet / leading ones); Fixed64 edge values and random values of every magnitude. distinct = distinct (path, m, n, unsigned bytes) resp. codec input; non-trivial = the wallet produced a witness and the node's check was executed on it resp. the codec returned a string",
-		Shards:  func(tier string) int { return 8 },
-		Run:     runC37,
+		ID:     "C37",
+		Rule:   "S: key sets of 1..8 fresh P-256 keys; standard, every (m,n) with 2<=n<=8, Schnorr aggregates of 1..8 keys; random TransferAsset transactions (v0/v9, 1..4 inputs, 1..4 outputs, attributes, lock time); each signed through one wallet path with the signer order permuted; then one byte of the unsigned bytes changed at every position (<=400) for standard and Schnorr witnesses and at a seeded sample of max(24, 800/(m*n)) positions incl. first and last for m-of-n witnesses. C: every issued address prefix x random 20-byte hashes, mutated address strings (one character replaced / transposed / dropped / inserted / non-alphabet / leading ones); Fixed64 edge values and random values of every magnitude. distinct = distinct (path, m, n, unsigned bytes) resp. codec input; non-trivial = the wallet produced a witness and the node's check was executed on it resp. the codec returned a string",
+		Shards: func(tier string) int { return 8 },
+		Run:    runC37,
 		Require: []string{"S_signed:standard-func", "S_signed:standard-client", "S_signed:multisig-sequential", "S_signed:multisig-byM", "S_signed:multisig-client-sequential", "S_signed:multisig-client-multisign", "S_signed:schnorr", "S_signed:reopened-keystore",
 			"S_accepted", "S_mutations_rejected", "max:S_mn_combinations_in_one_shard", "S_mn:1-of-2", "S_mn:8-of-8", "S_mn:5-of-7", "C_addr_roundtrips", "C_addr_mutants_rejected", "C_fixed64_roundtrips", "C_fixed64_edges"},
 		Assumptions: []string{"Go standard library crypto (ecdsa, elliptic, sha256), math/big and x/crypto/ripemd160 are correct",
